@@ -1,5 +1,22 @@
+//! Drivers for the btor2 front-end properties: C08, C09, C16, C18.
+mod btorref;
+mod c08;
+mod c09;
+mod c16;
+mod c18;
+mod util;
+
 use pvcore::run::*;
 
 fn main() {
-    main_with(&[])
+    let args: Vec<String> = std::env::args().collect();
+    if args.len() >= 3 && args[1] == "--c18-worker" {
+        c18::worker_main(&args);
+    }
+    main_with(&[
+        Entry { id: "C08", level: "exploration", meta: c08::meta, run: c08::run, replay: c08::replay },
+        Entry { id: "C09", level: "exploration", meta: c09::meta, run: c09::run, replay: c09::replay },
+        Entry { id: "C16", level: "exploration", meta: c16::meta, run: c16::run, replay: c16::replay },
+        Entry { id: "C18", level: "exploration", meta: c18::meta, run: c18::run, replay: c18::replay },
+    ])
 }
